@@ -9,7 +9,9 @@ use serde::{Deserialize, Serialize};
 pub const BUFSIZES: [i64; 6] = [10000, 10000, 10000, 10000, 256, 100000];
 
 #[derive(Clone, Debug, Serialize, Deserialize)]
-pub struct ServerCase { pub req: ReqCase, pub buf: u8, pub app: AppKind, pub legacy: bool }
+pub struct ServerCase { pub req: ReqCase, pub buf: u8, pub app: AppKind, pub legacy: bool,
+    /// sent to the real binary over loopback when the check has one running on this thread (default buffer, real application, production entry)
+    #[serde(default)] pub binary: bool }
 
 pub struct Exam {
     pub bytes: Vec<u8>,
@@ -61,13 +63,37 @@ pub fn examine_bytes(bytes: Vec<u8>, bufsize: usize, app: AppKind, legacy: bool,
 
 pub fn examine(c: &ServerCase) -> Exam {
     let bufsize = BUFSIZES[c.buf as usize % BUFSIZES.len()] as usize;
-    examine_bytes(c.req.render(bufsize), bufsize, c.app, c.legacy, Transport::default())
+    let bytes = c.req.render(bufsize);
+    if via_binary(c) {
+        if let Some(out) = inproc::serve_binary(&bytes) {
+            let line = classify_request_line(&bytes[..bytes.len().min(bufsize)]);
+            let resp = mhttp::parse(&out.out);
+            let no_body_by_method = match &line {
+                LineClass::Valid { method, .. } => Some(method == "HEAD" || method == "OPTIONS"),
+                LineClass::MustReject(_) => Some(false),
+                LineClass::Unspecified { method_guess } => if method_guess == "HEAD" || method_guess == "OPTIONS" { None } else { Some(false) },
+            };
+            return Exam { bytes, bufsize, line, out, resp, no_body_by_method };
+        }
+    }
+    examine_bytes(bytes, bufsize, c.app, c.legacy, Transport::default())
 }
+
+/// the binary serves with the default 10000-byte buffer and the real application
+pub fn via_binary(c: &ServerCase) -> bool { c.binary && !c.legacy && c.app == AppKind::Real && BUFSIZES[c.buf as usize % BUFSIZES.len()] == 10000 }
+
+pub fn replay_wants_binary(case: &serde_json::Value) -> bool {
+    case.get("binary").and_then(|b| b.as_bool()).unwrap_or(false) || case.get("server").and_then(|s| s.get("binary")).and_then(|b| b.as_bool()).unwrap_or(false)
+}
+
+/// Starts the release binary on the fixed docroot for this thread's `binary` cases; reports trouble as inconclusive at the end (`binary_end`).
+pub fn binary_begin(ctx: &crate::fw::Ctx, root: &std::path::Path) { if let Err(e) = inproc::binary_start(root) { ctx.inconclusive(&format!("real binary did not start: {}", e)); } }
+pub fn binary_end(ctx: &crate::fw::Ctx) { inproc::binary_stop(); for t in inproc::binary_trouble() { ctx.inconclusive(&format!("exchange with the real binary did not complete: {}", t)); } }
 
 pub fn server_case_strategy(with_legacy: bool) -> impl proptest::strategy::Strategy<Value = ServerCase> {
     use proptest::prelude::*;
-    (crate::fw::greq::case_strategy(), 0u8..6, prop_oneof![8 => Just(AppKind::Real), 1 => Just(AppKind::ReturnsErr), 1 => Just(AppKind::Fixed)], proptest::bool::weighted(if with_legacy { 0.25 } else { 0.0 }))
-        .prop_map(|(req, buf, app, legacy)| ServerCase { req, buf, app: if legacy { AppKind::Real } else { app }, legacy })
+    (crate::fw::greq::case_strategy(), 0u8..6, prop_oneof![8 => Just(AppKind::Real), 1 => Just(AppKind::ReturnsErr), 1 => Just(AppKind::Fixed)], proptest::bool::weighted(if with_legacy { 0.25 } else { 0.0 }), proptest::bool::weighted(0.25))
+        .prop_map(|(req, buf, app, legacy, binary)| ServerCase { req, buf, app: if legacy { AppKind::Real } else { app }, legacy, binary })
 }
 
 pub fn describe(e: &Exam) -> String {
